@@ -13,6 +13,7 @@ struct MV {
   enum Kind { Null, False, True, Uint, Sint, Real, Str, Arr, Obj };
   Kind k = Null;
   uint64_t u = 0;  // Uint: value; Sint: two's complement of the (negative) value; Real: IEEE bits
+  bool has_map = false;  // Obj: a lookup map may exist (steers generation / lookup expectations only; ignored by equality)
   bool negzero = false;  // Uint 0 written as "-0" (kind is underspecified: unsigned zero or -0.0 both fine)
   std::string s;
   std::vector<MV> a;
